@@ -98,6 +98,16 @@ def run(ctx):
         repl = bool(H.draw(2))
         ctx.sample.update({"tournament_size": size, "with_replacement": repl})
         step = TournamentSelection(size, with_replacement=repl)
+        if ncases == 1 and H.draw(3) == 2:
+            # history: the same individuals went through tournaments of this problem, then of ANOTHER problem, before this pass
+            other = SingleObjectiveProblem(lambda p: float((p.v * 7 + 3) % 5), minimize=bool(H.draw(2)))
+            for prob in (problem, other):
+                try:
+                    list(step.apply(prob, evaluator, rep, rnd, list(members), min(3, len(members)), 0))
+                except Exception:
+                    pass
+            ctx._keepalive = other
+            ctx.faults["carry_over"] += 1
         gen = step.apply(problem, evaluator, rep, rnd, list(members), target, 1)
         ids = Counter(id(m) for m in members)
         pulled = 0
